@@ -23,7 +23,7 @@ RULE = ('cases: seeded populations of 0-12 agents (after an add/remove history, 
         '(population signature, query).')
 ASSUMPTIONS = ['"every member is reachable" is checked as: each of the k members is drawn within 60*k draws (a uniform pick misses one with probability < 1e-25)']
 FLOORS = {'quick': {'queries': 6000, 'tag_zero_queries': 800, 'tag_queries': 3000, 'template_queries': 4000, 'empty_filters': 1500,
-                    'random_picks': 100000, 'reachability_checks': 700, 'shuffles': 8000, 'shuffles_reordered': 2000, 'size_preserving_swaps': 1500, 'secondary_environment_populations': 100, 'completed_model_populations': 80,
+                    'random_picks': 100000, 'reachability_checks': 700, 'shuffles': 8000, 'shuffles_reordered': 2000, 'size_preserving_swaps': 1500, 'nested_environment_agents': 300, 'failed_removals': 60, 'secondary_environment_populations': 100, 'completed_model_populations': 80,
                     'reach:Core.Environment.get_agents': 100000, 'reach:Core.Environment.get_random_agent': 100000,
                     'reach:Core.Environment.shuffle': 8000},
           'thorough': {'queries': 600000, 'reachability_checks': 80000}}
@@ -68,6 +68,18 @@ def case_population(ctx, case):
             if rng.random() < 0.65:
                 a.add_component(T(a, model))
         universe.append(a)
+    for j in range(rng.choice([0, 0, 1, 2])):
+        # environments are agents too: a nested environment (district, herd, ...) carrying components and a few agents of its own
+        t = rng.choice(tagpool)
+        sub = core.Environment(model, id=f'nested{j}')
+        sub.tag = t
+        for T in K[:4]:
+            if rng.random() < 0.8:
+                sub.add_component(T(sub, model))
+        for q in range(rng.choice([0, 0, 1, 3])):
+            sub.add_agent(core.Agent(f'inner{j}_{q}', model))
+        universe.append(sub)
+        ctx.count('nested_environment_agents')
     order = []
     for a in rng.sample(universe, len(universe)):
         env.add_agent(a)
@@ -80,6 +92,19 @@ def case_population(ctx, case):
             if rng.random() < 0.5:
                 env.add_agent(a)
                 order.append(a)
+    poisoned = []
+    if len(order) >= 2 and rng.random() < 0.25:
+        # a removal that FAILS must leave membership and joining order alone.  (Attaching a component to a resident agent and then
+        # removing the agent is C03's known finding F2: today it raises KeyError and the agent stays; a repaired library removes it.)
+        victim = rng.choice(order[:-1])
+        if K[4] not in victim.components:
+            victim.add_component(K[4](victim, model))
+            try:
+                env.remove_agent(victim.id)
+                order.remove(victim)
+            except KeyError:
+                ctx.count('failed_removals')
+                poisoned.append(victim)       # its listings are half-deregistered now (F2): the driver never removes it again
     completed = rng.random() < 0.2
     if completed:
         model.complete()         # reporting code samples a finished model: queries and picks keep working
@@ -87,7 +112,9 @@ def case_population(ctx, case):
     for qn in range(12):
         if qn and order and rng.random() < 0.4:
             # membership change between two queries that keeps the population size: one leaves, one (re-)joins
-            gone = rng.choice(order)
+            gone = rng.choice([a for a in order if not any(a is b for b in poisoned)] or order)
+            if any(gone is b for b in poisoned):
+                continue
             env.remove_agent(gone.id)
             order.remove(gone)
             outside = [a for a in universe if not any(a is b for b in order)]
